@@ -218,8 +218,17 @@ func c12CheckNode(n *btreeNode) string {
 	if err != nil {
 		return fmt.Sprintf("re-encode failed: %v", err)
 	}
-	if !bytes.Equal(buf2.Bytes(), page) {
-		return "encode(decode(encode(n))) differs from encode(n)"
+	// a second round trip must still mean the same page (bytes need not be
+	// identical: what the free area holds is the encoder's business)
+	m2 := &btreeNode{isLeaf: n.isLeaf}
+	if buf2.Len() != pageSize {
+		return fmt.Sprintf("re-encoded page has %d bytes", buf2.Len())
+	}
+	if err := m2.decode(bytes.NewBuffer(append([]byte{}, buf2.Bytes()...))); err != nil {
+		return fmt.Sprintf("decode of the re-encoded page failed: %v", err)
+	}
+	if msg := c12Equal(before, c12LogicalOf(m2)); msg != "" {
+		return "decode(encode(decode(encode(n)))): " + msg
 	}
 	// route 2: through the file store with a cold cache. The file offset is
 	// remapped into a small file; the logical comparison accounts for that.
